@@ -141,6 +141,10 @@ class PerceptionEvaluationConfig(_EvaluationConfigBase):
         min_distance: Optional[float] = e_cfg.get("min_distance")
 
         num_elements: int = len(target_labels)
+        if any(v is not None for v in (max_x_position, max_y_position)) and any(
+            v is not None for v in (max_distance, min_distance)
+        ):
+            raise RuntimeError("Either max x/y position or max/min distance should be specified")
         if None not in (max_x_position, max_y_position):
             max_x_position_list: List[float] = set_thresholds(max_x_position, num_elements, False)
             max_y_position_list: List[float] = set_thresholds(max_y_position, num_elements, False)
